@@ -168,6 +168,55 @@ fn c19(args: &Args, t0: Instant) -> i32 {
     finish(merge("C19", parts, t0))
 }
 
+/// C11: `prefix; clear(); suffix` is indistinguishable from `suffix` on a fresh cache.
+fn c11_differential(args: &Args, t0: Instant, flavor: model::Flavor) -> Outcome {
+    let (jobs, names) = checks::c11_diff_pairs(&args.tier, flavor);
+    let programs: Vec<model::Program> = jobs.iter().map(|j| j.program.clone()).collect();
+    let n = jobs.len();
+    let mut rc = engine::RunCfg::new((args.secs / 4).max(10));
+    rc.threads = args.threads;
+    rc.keep_job_states = true;
+    rc.state_hash = engine::client0_hash;
+    let agg = engine::run_jobs(jobs, |_, _| vec![], |_, t| t.ledger.iter().any(|e| e.kind == model::CbKind::Reject || e.kind == model::CbKind::Evict), rc);
+    let mut reported = Vec::new();
+    let mut compared = 0u64;
+    for i in 0..n / 2 {
+        if let (Some(a), Some(b)) = (agg.job_states.get(&(2 * i)), agg.job_states.get(&(2 * i + 1))) {
+            compared += 1;
+            if a != b {
+                reported.push(report::Reported {
+                    property: "C11".into(),
+                    check: "c11-diff".into(),
+                    class: "not-like-fresh-after-clear".into(),
+                    msg: format!(
+                        "after the prefix and clear() the suffix behaves differently from the same suffix on a fresh cache: {} vs {} distinct outcomes, {} in common",
+                        a.len(),
+                        b.len(),
+                        a.intersection(b).count()
+                    ),
+                    case_text: names[i].clone(),
+                    replay: json!({"kind": "diff", "hash": "client0", "a": programs[2 * i], "b": programs[2 * i + 1]}),
+                });
+            }
+        }
+    }
+    let coverage = report::coverage_from_agg(
+        &agg,
+        "differential: [prefix; clear()] as deterministic pre-state + suffix as client 0, against the same suffix on a fresh cache (capacity 2, buffer_items 1 so lookups reach the estimator, metrics on); prefixes: every body of <= 2 (quick) / 3 operations over {G(9), G(1), I(9), I(1,1s), I(2), R(9), M(1)} + two 'hot key' prefixes; 4 suffixes (admission contest after refilling, re-used keys with other TTLs + idle time, conditional writes); the sets of client-0-observable outcomes must coincide",
+        json!({ "programs_generated": n, "program_pairs_compared": compared }),
+    );
+    Outcome {
+        property: "C11-differential".into(),
+        tier: args.tier.clone(),
+        seed: args.seed,
+        coverage,
+        assumptions: checks::COMMON_ASSUMPTIONS.iter().map(|s| s.to_string()).collect(),
+        reported,
+        machinery_errors: agg.machinery_errors,
+        wall_s: t0.elapsed().as_secs_f64(),
+    }
+}
+
 fn differential(args: &Args, t0: Instant, quick: bool) -> Outcome {
     use model::Flavor::{Async, Sync};
     let mut jobs = Vec::new();
@@ -197,9 +246,11 @@ fn differential(args: &Args, t0: Instant, quick: bool) -> Outcome {
         }
     }
     let n = jobs.len();
+    let programs: Vec<model::Program> = jobs.iter().map(|j| j.program.clone()).collect();
     let mut rc = engine::RunCfg::new(if quick { (args.secs / 4).max(10) } else { args.secs / 4 });
     rc.threads = args.threads;
     rc.keep_job_states = true;
+    rc.state_hash = engine::observable_hash;
     let agg = engine::run_jobs(jobs, |_, _| vec![], |_, t| !t.ledger.is_empty() || t.recs.iter().any(|r| matches!(r.res, model::Res::Val(Some(_)))), rc);
     let mut reported = Vec::new();
     let mut compared = 0u64;
@@ -213,7 +264,7 @@ fn differential(args: &Args, t0: Instant, quick: bool) -> Outcome {
                     class: "async-differs-from-sync".into(),
                     msg: format!("the sets of observable outcomes differ: sync {} outcomes, async {} outcomes, {} in common", s.len(), a.len(), s.intersection(a).count()),
                     case_text: names[i].clone(),
-                    replay: json!({"kind": "diff", "program": names[i]}),
+                    replay: json!({"kind": "diff", "hash": "observable", "a": programs[2 * i], "b": programs[2 * i + 1]}),
                 });
             }
         }
@@ -276,7 +327,11 @@ fn run_check(id: &str, args: &Args) -> i32 {
         "C06" => run_spec(checks::c06(&args.tier, model::Flavor::Sync), args, t0),
         "C08" => run_spec(checks::c08(&args.tier, model::Flavor::Sync), args, t0),
         "C10" => run_spec(checks::c10(&args.tier, model::Flavor::Sync), args, t0),
-        "C11" => run_spec(checks::c11(&args.tier, model::Flavor::Sync), args, t0),
+        "C11" => {
+            let a = spec_outcome(checks::c11(&args.tier, model::Flavor::Sync), args, t0, args.secs * 3 / 4);
+            let b = c11_differential(args, t0, model::Flavor::Sync);
+            finish(merge("C11", vec![a, b], t0))
+        }
         "C12" => run_spec(checks::c12(&args.tier, model::Flavor::Sync), args, t0),
         "C17" => run_spec(checks::c17(&args.tier, model::Flavor::Sync), args, t0),
         "C15" => run_spec(checks::c15(&args.tier, model::Flavor::Sync), args, t0),
@@ -351,6 +406,45 @@ fn replay(path: &str, show_trace: bool) -> i32 {
             0
         };
     }
+    if r.replay["kind"] == "diff" {
+        let (a, b): (model::Program, model::Program) = match (serde_json::from_value(r.replay["a"].clone()), serde_json::from_value(r.replay["b"].clone())) {
+            (Ok(a), Ok(b)) => (a, b),
+            _ => {
+                eprintln!("machinery: bad differential replay record");
+                return 2;
+            }
+        };
+        let hash: fn(&model::Trace) -> u64 = if r.replay["hash"] == "client0" { engine::client0_hash } else { engine::observable_hash };
+        let mut verdicts = Vec::new();
+        for _ in 0..2 {
+            let mut rc = engine::RunCfg::new(120);
+            rc.threads = 2;
+            rc.keep_job_states = true;
+            rc.state_hash = hash;
+            let jobs = vec![
+                engine::Job { program: a.clone(), bounds: vec![0], tag: "a".into() },
+                engine::Job { program: b.clone(), bounds: vec![0], tag: "b".into() },
+            ];
+            let agg = engine::run_jobs(jobs, |_, _| vec![], |_, _| true, rc);
+            let mut sa: Vec<u64> = agg.job_states.get(&0).map(|s| s.iter().copied().collect()).unwrap_or_default();
+            let mut sb: Vec<u64> = agg.job_states.get(&1).map(|s| s.iter().copied().collect()).unwrap_or_default();
+            sa.sort();
+            sb.sort();
+            verdicts.push((sa, sb));
+        }
+        if verdicts[0] != verdicts[1] {
+            eprintln!("MACHINERY-ERROR: the two replays differ (uncontrolled nondeterminism)");
+            return 2;
+        }
+        println!("  outcome sets: {} vs {}", verdicts[0].0.len(), verdicts[0].1.len());
+        return if verdicts[0].0 != verdicts[0].1 {
+            println!("VIOLATION property={} replay={}", r.property, path);
+            1
+        } else {
+            println!("replay: the two programs have the same outcome sets on this tree");
+            0
+        };
+    }
     let v: engine::FoundViolation = match serde_json::from_value(r.replay["violation"].clone()) {
         Ok(v) => v,
         Err(e) => {
@@ -418,7 +512,7 @@ fn main() {
         i += 1;
     }
     if args.secs == 0 {
-        args.secs = if args.tier == "quick" { 40 } else { 1500 };
+        args.secs = if args.tier == "quick" { 55 } else { 1500 };
     }
     let code = match pos.first().map(|s| s.as_str()) {
         Some("run") => run_check(&pos[1], &args),
